@@ -101,6 +101,16 @@ var c01Cells = []struct{ name, prog string }{
 	{"defun.free-var-lexical", "(defun c01fv# (vz) (vtr vq#)) (setq vq# 1) (let ((vq# 2)) (c01fv# 0))"},
 	{"defun.recursion", "(defun c01fact# (vn) (if (< vn 2) 1 (* vn (c01fact# (- vn 1))))) (vtr (c01fact# 5))"},
 	{"defun.late-binding", "(defun c01a# (vz) (c01b# vz)) (defun c01b# (vz) (vtr (+ vz 1))) (c01a# 1)"},
+	// a defun inside a let is a closure over the variables of the let, called from outside the let — whether the
+	// name is new, already defined (redefinition), or already referred to by the body of an earlier defun
+	{"defun.closure.new-name", "(let ((vn 0)) (defun c01dc# () (setq vn (+ vn 1)))) (vtr (c01dc#)) (vtr (c01dc#))"},
+	{"defun.closure.redefinition", "(defun c01dc# () 0) (vtr (c01dc#)) (let ((vn 0)) (defun c01dc# () (setq vn (+ vn 1)))) (vtr (c01dc#)) (vtr (c01dc#))"},
+	{"defun.closure.redefinition-uncalled", "(defun c01dc# () 0) (let ((vn 0)) (defun c01dc# () (setq vn (+ vn 1)))) (vtr (c01dc#)) (vtr (c01dc#))"},
+	{"defun.closure.forward-reference", "(defun c01du# () (c01dc#)) (let ((vn 10)) (defun c01dc# () (setq vn (+ vn 1)))) (vtr (c01du#)) (vtr (c01dc#))"},
+	{"defun.closure.redefinition-other-let", "(let ((vk 5)) (defun c01dc# (vx) (+ vx vk))) (vtr (c01dc# 1)) (let ((vk 7)) (defun c01dc# (vx) (* vx vk))) (vtr (c01dc# 2))"},
+	{"defun.closure.two-functions-one-variable", "(let ((vn 0)) (defun c01dc# () (setq vn (+ vn 1))) (defun c01dd# () vn)) (c01dc#) (c01dc#) (vtr (c01dd#))"},
+	{"defun.closure.not-the-global", "(setq vn# 100) (defun c01dc# () 0) (let ((vn# 0)) (defun c01dc# () (setq vn# (+ vn# 1)))) (vtr (c01dc#)) (vtr vn#)"},
+	{"defun.closure.redefinition-inside-function", "(defun c01dm# (vc) (defun c01dc# () (setq vc (+ vc 1)))) (c01dm# 10) (vtr (c01dc#)) (c01dm# 20) (vtr (c01dc#)) (vtr (c01dc#))"},
 	{"dlambda.in-defun", "(defun c01dl# (vx#) ((lambda (vy) vx#) 1)) (vtr (c01dl# 5))"},
 	{"dlambda.in-defun-arg", "(defun c01dl# (vx#) (vtr ((lambda (vy) (vtr vy) vx#) 1))) (c01dl# 5)"},
 	{"dlambda.in-lambda", "(funcall (lambda (vx#) (vtr ((lambda (vy) vx#) 1))) 5)"},
@@ -111,6 +121,16 @@ var c01Cells = []struct{ name, prog string }{
 	{"dolist.var-nil-in-result", "(dolist (vx (quote (1 2)) (vtr vx)) (vtr vx))"},
 	{"dotimes.var-count-in-result", "(dotimes (vi 2 (vtr vi)) (vtr vi))"},
 	{"dotimes.no-result", "(dotimes (vi (vtr 2)) (vtr vi))"},
+	// boundary: no iteration at all — the variable is bound all the same when the result form is evaluated, and it
+	// is the loop's own variable, not an outer one of the same name
+	{"dotimes.zero-count-var-in-result", "(dotimes (vi 0 (vtr vi)) (vtr 9))"},
+	{"dotimes.zero-count-var-in-result", "(let ((vi 7)) (vtr (dotimes (vi (vtr 0) (list vi 1)) (vtr 9))) (vtr vi))"},
+	{"dotimes.zero-count-var-in-result", "(defun c01dz# (vn) (let ((vacc nil)) (dotimes (vj vn (list vj vacc)) (setq vacc (cons vj vacc))))) (vtr (c01dz# 0)) (vtr (c01dz# 2)) (vtr (c01dz# 0))"},
+	{"dotimes.zero-count-no-result", "(vtr (dotimes (vi 0) (vtr 9)))"},
+	{"dolist.empty-list-var-nil-in-result", "(let ((vx 7)) (vtr (dolist (vx nil (list vx 1)) (vtr 9))) (vtr vx))"},
+	{"dolist.empty-list-var-nil-in-result", "(defun c01lz# (vl) (dolist (vx vl (list vx 1)) (vtr vx))) (vtr (c01lz# nil)) (vtr (c01lz# (quote (1)))) (vtr (c01lz# nil))"},
+	{"do.zero-iterations", "(let ((vi 7)) (vtr (do ((vi 0 (+ vi 1)) (va (vtr 5) (vtr 6))) ((>= vi 0) (list vi va)) (vtr 9))) (vtr vi))"},
+	{"dostar.zero-iterations", "(let ((vi 7)) (vtr (do* ((vi 0 (+ vi 1)) (va (+ vi 5) (vtr 6))) ((>= vi 0) (list vi va)) (vtr 9))) (vtr vi))"},
 	{"do.parallel-step", "(do ((vi 0 (+ vi 1)) (va 0 (+ va vi))) ((>= vi 3) (vtr va)) (vtr vi))"},
 	{"dostar.sequential-step", "(do* ((vi 0 (+ vi 1)) (va 0 (+ va vi))) ((>= vi 3) (vtr va)) (vtr vi))"},
 	{"do.var-without-step", "(do ((vi 0 (+ vi 1)) (va (vtr 5))) ((>= vi 2) (vtr va)) (vtr vi))"},
@@ -125,6 +145,20 @@ var c01Cells = []struct{ name, prog string }{
 	{"mv.list", "(list (multiple-value-list (values 1 2 3)) (multiple-value-list 5))"},
 	{"mv.values-empty", "(multiple-value-list (values))"},
 	{"mv.let-init", "(let ((va (values 1 2))) (list va))"},
+	// a variable bound to a form that returns multiple values holds the primary value: wherever the variable is
+	// used afterwards (argument of a primitive, of a user function, of funcall / apply, element traced by vtr,
+	// values form of multiple-value-bind, captured by a closure) exactly one value arrives
+	{"mv.var.let-arith", "(let ((vq (values 7 2))) (vtr (+ vq 1)))"},
+	{"mv.var.let-vtr", "(let ((va (values (vtr 1) (vtr 2)))) (vtr va) (vtr (cons va nil)))"},
+	{"mv.var.letstar", "(let* ((va (values 1 2)) (vb 3)) (vtr (list va vb)))"},
+	{"mv.var.through-if", "(let ((va (if t (values 1 2) 3))) (vtr (funcall (lambda (vz) (list vz vz)) va)))"},
+	{"mv.var.from-function", "(defun c01mvf# (vz) (values vz (+ vz 1))) (let ((va (c01mvf# 1))) (vtr (list va)) (vtr (c01mvf# va)))"},
+	{"mv.var.mvb-values-arg", "(let ((va (values 1 2))) (multiple-value-bind (vb vc) (values va 9) (vtr (list vb vc))))"},
+	{"mv.var.do-init-and-step", "(do ((vi 0 (+ vi 1)) (va (values 1 2) (values (+ va 1) 9))) ((>= vi 2) (vtr (list va))) (vtr (list vi va)))"},
+	{"mv.var.dostar-init", "(do* ((vi 0 (+ vi 1)) (va (values 1 2))) ((>= vi 1) (vtr (list va))) (vtr (list va)))"},
+	{"mv.var.apply-user-function", "(defun c01mvu# (vy vz) (vtr (list vy vz))) (let ((va (values 1 2))) (c01mvu# va va) (apply (function c01mvu#) va (list va)))"},
+	{"mv.var.closure-captured", "(let ((vf (let ((va (values 1 2))) (lambda (vz) (list va vz))))) (vtr (funcall vf 3)))"},
+	{"mv.var.mvb-variable", "(multiple-value-bind (va vb) (values 1 2) (vtr (list va vb)) (vtr (+ va vb)))"},
 	{"mv.progn-last", "(multiple-value-list (progn (values 1 2)))"},
 	{"mv.prog1", "(multiple-value-list (prog1 (values 1 2) 3))"},
 	{"mv.if-test", "(if (values nil 1) 1 2)"},
